@@ -77,7 +77,7 @@ func c05kinds() []*gen.T {
 	return ks
 }
 
-var c05positions = []string{"direct", "pointer", "slice", "map"}
+var c05positions = []string{"direct", "pointer", "slice", "map", "ptrslice"}
 
 type c05dest struct {
 	t      *gen.T
@@ -103,6 +103,10 @@ func c05build(form c05form, k *gen.T, pos string) (*c05dest, error) {
 	case "map":
 		ft = gen.MapOf(k)
 		fs = `{"type":"map","values":` + form.json + `}`
+	case "ptrslice":
+		// many separately allocated pointees: their memory comes from the library's own arenas
+		ft = gen.SliceOf(gen.PtrTo(k))
+		fs = `{"type":"array","items":` + form.json + `}`
 	}
 	t := gen.StructOf(
 		gen.Fld("G0", "guard_pre", false, canaryArr(64)),
@@ -130,6 +134,12 @@ func c05pat(o uintptr, salt int) byte { return byte((int(o)*7+salt*13)%251 + 1) 
 func c05wrap(pos string, d any, d2 any) any {
 	tail := int64(0x1122334455667788)
 	switch pos {
+	case "ptrslice":
+		items := make([]any, 0, 40)
+		for len(items) < 40 {
+			items = append(items, d, d2)
+		}
+		return &refavro.Record{Fields: []any{items, tail}}
 	case "slice":
 		return &refavro.Record{Fields: []any{[]any{d, d2}, tail}}
 	case "map":
@@ -279,6 +289,26 @@ func c05cell(c *core.Ctx, form c05form, k *gen.T, pos string, salt int) {
 		if bad := deepTouch(f, 0); bad != "" {
 			c.Violate("invalid-value", fmt.Sprintf("after decoding into %s the field holds an invalid value: %s\n datum %s", label, bad, refavro.Render(rec)), rep)
 			return
+		}
+		if pos == "ptrslice" && rerr == nil {
+			// each element's pointee is its own destination: the memory ranges must not overlap
+			esz := k.RT().Size()
+			type rng struct{ lo, hi uintptr }
+			var rs []rng
+			for j := 0; j < f.Len(); j++ {
+				if e := f.Index(j); !e.IsNil() && esz > 0 {
+					rs = append(rs, rng{e.Pointer(), e.Pointer() + esz})
+				}
+			}
+			for a := range rs {
+				for b := a + 1; b < len(rs); b++ {
+					if rs[a].lo < rs[b].hi && rs[b].lo < rs[a].hi {
+						c.Violate("pointee-overlap", fmt.Sprintf("decoding into %s: the pointees of elements %d and %d overlap ([%#x,%#x) and [%#x,%#x)), so writing one writes outside its destination", label, a, b, rs[a].lo, rs[a].hi, rs[b].lo, rs[b].hi), rep)
+						return
+					}
+				}
+			}
+			c.Count("pointee-disjointness-checks", 1)
 		}
 		// expected conversion where the model covers the pairing
 		want := reflect.New(rt).Elem()
